@@ -40,7 +40,10 @@ def soup(rng, V):
         elif c < 0.5:
             out.append(rng.choice(["pi", "c", "population", "finland", "mass", "of", "earth", "round", "floor", "ceil", "sin", "cos", "to", "AND", "OR", "NOT", "x"]))
         elif c < 0.8:
-            out.append(rng.choice(["+", "-", "*", "/", "^", "**", "(", ")", ",", "%", "{", "}", "^" + str(rng.randint(-99, 99)), "^-"]))
+            tok = rng.choice(["+", "-", "*", "/", "^", "**", "(", ")", ",", "%", "{", "}", "^N", "^-"])
+            if tok == "^N":
+                tok = "^" + str(rng.randint(-99, 99))
+            out.append(tok)
         elif c < 0.9:
             out.append(rng.choice([" ", "  ", "\t", "\n"]))
         else:
@@ -49,6 +52,31 @@ def soup(rng, V):
     for t in out:
         s += t + rng.choice(["", "", " "])
     return s
+
+
+def power_budget_ok(s):
+    """Powers up to two digits (the property's bound), and the product of all exponents of one input stays small: a tower of `^99`
+    or an exponent like `42E4` is a finite but astronomically long loop, which is not what this property is about."""
+    import re
+    from gens import literal_value
+    if any(len(x) > 3 for x in re.findall(r"\d[eE][+-]?(\d+)", s)):
+        return False                           # exponent notation with more than three digits: outside the property's bound
+    prod = 1
+    bare = 0
+    for m in re.finditer(r"(?:\^|\*\*)\s*(\(?)\s*([+-]?(?:\d+\.?\d*|\.\d+)(?:[eE][+-]?\d+)?)?", s):
+        if m.group(1):
+            return False                       # a computed exponent: may be arbitrarily large
+        if m.group(2) is None:
+            bare += 1
+            continue
+        try:
+            v = abs(literal_value(m.group(2)))
+        except Exception:
+            return False
+        if v > 99:
+            return False
+        prod *= max(int(v), 1)
+    return prod <= 2000 and bare <= 1
 
 
 def mutate(rng, q):
@@ -91,7 +119,7 @@ def run(rng, tier, model_ok):
         inputs.append(quantity_expr(rng, V, rng.randint(1, 3)))
     for _ in range(n // 4):
         inputs.append("".join(rng.choice(WEIRD + list("01 +-*/^()m.e%{}")) for _ in range(rng.randint(1, 30))))
-    inputs = [s for s in inputs if "\x00" not in s]
+    inputs = [s for s in inputs if "\x00" not in s and power_budget_ok(s)]
     failures = []
     stats = {"inputs": len(inputs), "error_results": 0, "value_results": 0, "panics_debug": 0, "panics_release": 0}
     cases_all = []
